@@ -53,12 +53,21 @@ def take(loc, action_cfgs, agent=None, via_thread=False, plugins=None, extra_tri
     return agent, run, info
 
 
+def _tname(v):
+    """The name of v's class as the class statement gave it (a metaclass can hide or falsify __name__)."""
+    try:
+        n = type.__getattribute__(type(v), '__name__')
+        return n if type(n) is str else str(n)
+    except BaseException:
+        return 'object'
+
+
 def stack_of(frame):
     out = []
     f = frame
     while f is not None:
         s = f.f_locals.get('self', None)
-        out.append((f.f_code.co_filename, f.f_code.co_name, f.f_lineno, type(s).__name__ if s is not None else None))
+        out.append((f.f_code.co_filename, f.f_code.co_name, f.f_lineno, _tname(s) if s is not None else None))
         f = f.f_back
     return out
 
@@ -91,7 +100,9 @@ def ref_children(v, max_coll=None):
         return ch if max_coll is None else ch[:max_coll]
     if isinstance(v, Exception):
         ch = [(str(i), e) for i, e in enumerate(v.args)]
-        return ch if max_coll is None else ch[:max_coll]
+        ch = ch if max_coll is None else ch[:max_coll]
+        # an exception is an object too: its attributes after its arguments
+        return ch + [(demangle(type(v).__name__, k), val) for k, val in vars(v).items()]
     try:
         d = v.__dict__
     except Exception:
